@@ -912,6 +912,31 @@ pub fn backend<B: Backend>(opts: &Opts, rep: &mut Report) {
     }
 }
 
+/// `pvmon fuzzseeds <dir>`: seed corpus for the libFuzzer target (valid serialisations of every kind)
+pub fn fuzz_seeds(opts: &Opts) {
+    fn go<B: Backend>(opts: &Opts, bi: u8) {
+        let dir = &opts.extra[0];
+        let fx = fixture::<B>(opts.seed);
+        for (i, (t, s)) in fx.seeds.iter().enumerate() {
+            let ti = TARGETS.iter().position(|x| x == t).unwrap() as u8;
+            let h = t.header::<B>();
+            let Some(body) = s.strip_prefix(&h) else { continue };
+            let mut data = vec![bi, ti];
+            data.extend_from_slice(body.as_bytes());
+            let _ = std::fs::write(format!("{dir}/seed-{}-{i}", B::NAME), data);
+        }
+    }
+    go::<V1>(opts, 0);
+    go::<V2>(opts, 1);
+    go::<V3>(opts, 2);
+    go::<V4>(opts, 3);
+    #[cfg(feature = "ffi")]
+    {
+        go::<V3Lc>(opts, 4);
+        go::<V4Na>(opts, 5);
+    }
+}
+
 /// `pvmon c04feed --backend <b> <Target> <string>`: run one input (replay / triage)
 pub fn feed(opts: &Opts) {
     fn go<B: Backend>(opts: &Opts) {
